@@ -242,7 +242,7 @@ def load_canonical():
 
 
 def gen_cases(tier, rnd, root):
-    n_tree, n_mod, n_beh, n_behmod = (260, 70, 110, 25) if tier == 'quick' else (6000, 1500, 1500, 300)
+    n_tree, n_mod, n_beh, n_behmod = (260, 70, 110, 25) if tier == 'quick' else (4000, 1000, 1200, 250)
     beh = [G8.gen_behaviour_case(rnd, module_mode=False) for _ in range(n_beh)]
     beh += [G8.gen_behaviour_case(rnd, module_mode=True) for _ in range(n_behmod)]
     tree = [G9.gen_tree_case(rnd, module_mode=False) for _ in range(n_tree)]
